@@ -321,8 +321,8 @@ def has(e, tag):
     return e[0] == tag or any(has(x, tag) for x in e[1:] if isinstance(x, list) and x and isinstance(x[0], str))
 
 
-def gen_op(rng, depth, dmax, defects):
-    """one operator expression; `defects` allows the three known-defective sites to be generated"""
+def gen_op(rng, depth, dmax):
+    """one operator expression (transpositions, non-square factors and scalings of every class included)"""
     cls = rng.choice(['slr', 'slr', 'slr', 'nz', 'lp', 'cn', 'cn', 'pl'])
     if cls == 'slr':
         r, c = rng.randint(1, dmax), rng.randint(1, dmax)
@@ -332,8 +332,11 @@ def gen_op(rng, depth, dmax, defects):
         e = ['NBase', rsm(rng, r, c, nonneg=True), rng.choice([0, 0, 1, 0.5, 2])]
         if rng.random() < 0.25:
             e.append('dense')
-        if defects and rng.random() < 0.35:
-            return {'cls': 'nz', 'e': ['NT', e]}, (c, r)      # the matrix denoted is c x r (the code returns self)
+        u = rng.random()
+        if u < 0.35:
+            return {'cls': 'nz', 'e': ['NT', e]}, (c, r)
+        if u < 0.45:
+            return {'cls': 'nz', 'e': ['NT', ['NT', e]]}, (r, c)
         return {'cls': 'nz', 'e': e}, (r, c)
     if cls == 'lp':
         n = rng.randint(1, dmax)
@@ -343,12 +346,10 @@ def gen_op(rng, depth, dmax, defects):
             square_degrees(e[1], e[2])     # exact square roots keep the rationals of the model small
         for _ in range(rng.choice([0, 1, 1, 2])):
             t = rng.choice(['LT', 'LT', 'LAstype'])
-            if t == 'LT' and not defects and not is_sym(e_base(e)[1]):
-                continue
             e = [t, e]
         return {'cls': 'lp', 'e': e}, (n, n)
     if cls == 'cn':
-        e, shp = gen_cn(rng, depth, dmax, square_only=not (defects and rng.random() < 0.4))
+        e, shp = gen_cn(rng, depth, dmax, square_only=rng.random() < 0.5)
         return {'cls': 'cn', 'e': e}, shp
     n = rng.randint(1, dmax)
     return {'cls': 'pl', 'e': gen_pl(rng, min(depth, 3), n)}, (n, n)
@@ -429,7 +430,8 @@ def fl(x):
 
 
 def defect_site(op):
-    """the known-defective site an expression goes through (excluded by op_sound_site in the theorem): (site, kind) or (None, None)"""
+    """regression label: the formerly defective site (repaired by 042fc436, ca03879a, 1496c670, 2a194d08) an expression goes
+    through; a failure of the oracle there is reported under the same site / kind fields as before the fixes"""
     e = op['e']
     if op['cls'] == 'nz' and has(e, 'NT'):
         return 'Normalizer._transpose', 'transpose_returns_self'
@@ -462,8 +464,7 @@ def run(ctx, scratch):
                        'adjacencies of Normalizer / Laplacian / CoNeighbor have non-negative entries, regularization >= 0',
                        'np.sqrt / np.log enter the model as finite oracle tables filled from the float values',
                        'matrices have no explicitly stored zeros and no duplicate coordinates (SciPy canonical CSR)',
-                       'base matrices of CoNeighbor and Polynome have at least one stored entry (check_format rejects empty matrices); '
-                       'the same test inside CoNeighbor._transpose is not modelled and is reported by the harness',
+                       'base matrices of CoNeighbor and Polynome have at least one stored entry (check_format rejects empty matrices)',
                        'directed2undirected / bipartite2* on operators: plain SparseLR objects (check_csr_or_slr rejects the Regularizer subclass)',
                        'cases where a pseudo-inverse is taken of a value within 1e-7 of zero (cancellation) are dropped and counted']
 
@@ -475,7 +476,7 @@ def run_operators(ctx, impl, rng, quick, dmax, depth_max, notes):
     for k in range(n_cases):
         dm, dp = rng.choice(profiles)
         depth = rng.randint(0, dp)
-        op, (r, c) = gen_op(rng, depth, dm, defects=(k % 3 == 0))
+        op, (r, c) = gen_op(rng, depth, dm)
         x = rvec(rng, c)
         X = [rvec(rng, 2) for _ in range(c)]
         cases.append(dict(op=op, x=x, X=X, shape=(r, c), depth=depth, with_dense=(k % 2 == 0)))
@@ -532,8 +533,7 @@ def run_operators(ctx, impl, rng, quick, dmax, depth_max, notes):
         elif 'err' in d or not vclose(fl(m_dot[0]), d['ok']):
             ctx.violation('model_vs_impl', 'operator.dot(x): implementation differs from the model', case=case,
                           expected=fl(m_dot[0]), observed=d, cls=op['cls'], part='dot')
-        # where the recorded shape is off only the 1-D product is compared
-        stale = site == 'Normalizer._transpose' or (op['cls'] == 'cn' and cn_nonsquare(op['e']))
+        stale = False
         if not stale:
             for part in ('mv2', 'dotm'):
                 o = out[part]
